@@ -583,3 +583,70 @@ impl<const CAP: usize> FixedBufM<CAP> {
         &self.data[..self.len]
     }
 }
+
+/// Name reader over *message contents* (the message without its 12-octet
+/// header; pointers are message offsets, i.e. contents offset + 12).
+/// `strict = false`: RFC 1035 rule as the established codec implements it
+/// (a pointer must point before itself).  `strict = true`: the new codec's
+/// documented rule (a pointer must point before the start of the run of
+/// labels it terminates).  Returns (flat length, offset behind the name in
+/// contents).
+pub fn ref_read_name_contents(c: &[u8], start: usize, out: &mut [u8; 32], strict: bool, labels: usize, hops: usize) -> Option<(usize, usize)> {
+    let mut p = start;
+    let mut seg = start;
+    let mut o = 0usize;
+    let mut after: Option<usize> = None;
+    let mut nl = 0;
+    let mut nh = 0;
+    loop {
+        if p >= c.len() {
+            return None;
+        }
+        let b = c[p] as usize;
+        if b >= 0xC0 {
+            if p + 1 >= c.len() || nh >= hops {
+                return None;
+            }
+            let t = ((b & 0x3F) << 8) | c[p + 1] as usize;
+            if t < 12 {
+                return None;
+            }
+            let t = t - 12;
+            if after.is_none() {
+                after = Some(p + 2);
+            }
+            let limit = if strict { seg } else { p };
+            if t >= limit {
+                return None;
+            }
+            p = t;
+            seg = t;
+            nh += 1;
+            continue;
+        }
+        if b > 63 {
+            return None;
+        }
+        if p + 1 + b > c.len() {
+            return None;
+        }
+        if o + 1 + b > 32 {
+            return None;
+        }
+        out[o] = b as u8;
+        let mut i = 0;
+        while i < b {
+            out[o + 1 + i] = c[p + 1 + i];
+            i += 1;
+        }
+        o += 1 + b;
+        p += 1 + b;
+        if b == 0 {
+            return Some((o, after.unwrap_or(p)));
+        }
+        nl += 1;
+        if nl > labels {
+            return None;
+        }
+    }
+}
